@@ -270,6 +270,103 @@ func runFaultPlan(t *Trace, faults []FaultSpec, st *Stats) (out faultOutcome, v 
 					return out, v
 				}
 			}
+		case "putmany":
+			// a batch on the blockstore: when the fault lands on a later block, the blocks before it
+			// have been written; the call fails as a whole. Whatever Has reports afterwards must be
+			// readable with exact bytes, and is what the archive has to contain.
+			if finalized || ss != nil {
+				continue
+			}
+			blks := MakeBlocks(op.Blks)
+			doBatch := func() (*Violation, bool) {
+				before := ft.faultsHit()
+				callsBefore := ft.writeCalls()
+				var perr error
+				if pv := safeCall(func() { perr = store.PutMany(blks) }); pv != nil {
+					return viol("fault/panic/putmany", "PutMany panicked: %v", pv), false
+				}
+				st.Steps++
+				fired := ft.faultsHit() > before
+				if !fired {
+					if perr != nil {
+						rej := false
+						tmp := &Model{Cfg: m.Cfg, Secs: append([]Blk(nil), m.Secs...)}
+						for _, b := range blks {
+							if tmp.PutVerdict(b) == putReject {
+								rej = true
+								break
+							}
+							if tmp.PutVerdict(b) == putStore {
+								tmp.Secs = append(tmp.Secs, b)
+							}
+						}
+						if rej {
+							m.Secs = tmp.Secs
+							return nil, false
+						}
+						if lastFaultOp >= 0 {
+							laterFailed = true
+							return nil, false
+						}
+						return viol("session/model-mismatch/putmany", "op #%d PutMany failed without a fault: %v", i, perr), false
+					}
+					for _, b := range blks {
+						switch m.PutVerdict(b) {
+						case putStore:
+							m.Secs = append(m.Secs, b)
+						case putReject:
+							return viol("session/model-mismatch/putmany", "op #%d PutMany accepted an over-long CID", i), false
+						}
+					}
+					return nil, false
+				}
+				lastFaultOp = i
+				if perr == nil {
+					return viol("fault/error-swallowed/putmany", "op #%d PutMany: the underlying writer failed but PutMany returned nil", i), true
+				}
+				// a stored section takes exactly three write calls (length, CID, data): the sections
+				// completed before the faulted call are in the file and belong to the archive
+				written := (ft.writeCalls() - callsBefore - 1) / 3
+				for _, b := range blks {
+					if m.PutVerdict(b) != putStore {
+						continue
+					}
+					if written == 0 {
+						// this is the block whose write failed: it must not be reported
+						if !m.Present(b.Cid) {
+							if ok, herr := store.Has(b.Cid); herr == nil && ok {
+								return viol("fault/failed-put-reported/has", "op #%d PutMany failed (%v) on block %s but Has reports it as stored", i, perr, b.Spec), true
+							}
+						}
+						break
+					}
+					written--
+					ok, herr := store.Has(b.Cid)
+					if herr != nil {
+						laterFailed = true
+						return nil, true
+					}
+					data, gerr := store.Get(b.Cid)
+					if !ok || gerr != nil || !bytes.Equal(data, b.Data) {
+						return viol("fault/written-block-unreadable/putmany", "op #%d PutMany failed (%v) after block %s had been written completely, but afterwards Has=%v and Get returns %d bytes, err=%v", i, perr, b.Spec, ok, len(data), gerr), true
+					}
+					m.Secs = append(m.Secs, b)
+				}
+				if v := checkStored("putmany"); v != nil {
+					return v, true
+				}
+				return nil, true
+			}
+			v, fired := doBatch()
+			if v != nil {
+				return out, v
+			}
+			if fired && retry && !laterFailed {
+				if v, _ := doBatch(); v != nil {
+					v.What = "retry: " + v.What
+					return out, v
+				}
+			}
 		case "finalize":
 			if finalized {
 				continue
@@ -392,14 +489,14 @@ func faultLocus(lens []int, ops []int, idx int, t *Trace) string {
 	if k == "restart_clean" || k == "restart_final" {
 		return "restart"
 	}
-	if k == "put" {
+	if k == "put" || k == "putmany" {
 		ord := 0
 		for q := 0; q < idx; q++ {
 			if ops[q] == op {
 				ord++
 			}
 		}
-		return "put:" + []string{"section-varint", "section-cid", "section-data"}[ord%3]
+		return k + ":" + []string{"section-varint", "section-cid", "section-data"}[ord%3]
 	}
 	return k
 }
@@ -557,6 +654,11 @@ func faultFreeWrites(t *Trace) (lens []int, ops []int) {
 			} else {
 				store.Put(b)
 			}
+		case "putmany":
+			if finalized || ss != nil {
+				continue
+			}
+			store.PutMany(MakeBlocks(op.Blks))
 		case "finalize":
 			if finalized {
 				continue
@@ -618,7 +720,11 @@ func GenC16(seed uint64, run int) *Trace {
 		t.Ops = append(t.Ops, Op{Kind: Pick(r, []string{"restart_clean", "restart_final"})})
 	}
 	for i, n := 0, r.Range(1, 6); i < n; i++ {
-		t.Ops = append(t.Ops, Op{Kind: "put", Blks: []BlkSpec{Pick(r, alpha)}})
+		if store == "rw" && r.Chance(1, 3) {
+			t.Ops = append(t.Ops, Op{Kind: "putmany", Blks: genBatch(r, t.Cfg, alpha, 4)})
+		} else {
+			t.Ops = append(t.Ops, Op{Kind: "put", Blks: []BlkSpec{Pick(r, alpha)}})
+		}
 	}
 	t.Ops = append(t.Ops, Op{Kind: "finalize"})
 	t.Extra = map[string]any{"enumerate": true, "retry": r.Bool()}
